@@ -64,7 +64,7 @@ def parse_san_logs(logbase, extra_files=()):
     return out
 
 
-def _run_shard(mon, work, shard, nshards, budget, flavour, extra):
+def _run_shard(mon, work, shard, nshards, budget, flavour, extra, env_extra=None):
     """run one shard to completion, restarting past crashes; returns (records, crashes)"""
     crashes, skips = [], []
     for attempt in range(12):
@@ -76,7 +76,7 @@ def _run_shard(mon, work, shard, nshards, budget, flavour, extra):
         for s in skips:
             cmd += ['--skipfn', s]
         try:
-            p = subprocess.run(cmd, env=san_env(logbase), stdout=subprocess.PIPE, stderr=subprocess.STDOUT, timeout=3600)
+            p = subprocess.run(cmd, env=dict(san_env(logbase), **(env_extra or {})), stdout=subprocess.PIPE, stderr=subprocess.STDOUT, timeout=3600)
         except subprocess.TimeoutExpired:
             crashes.append(dict(kind='watchdog', fn='?', witness='shard %d timed out' % shard, reports=[]))
             return [], crashes
@@ -107,7 +107,7 @@ def _run_shard(mon, work, shard, nshards, budget, flavour, extra):
     return [], crashes
 
 
-def run(config, flavour, budget, extra=(), nshards=None):
+def run(config, flavour, budget, extra=(), nshards=None, env=None):
     """returns dict(records=[...], crashes=[...], wall)"""
     t0 = time.time()
     mon = build.harness(config, flavour)
@@ -115,14 +115,14 @@ def run(config, flavour, budget, extra=(), nshards=None):
     work = scratch('xv-sweep-')
     try:
         with ThreadPoolExecutor(nshards) as ex:
-            res = list(ex.map(lambda s: _run_shard(mon, work, s, nshards, budget, flavour, extra), range(nshards)))
+            res = list(ex.map(lambda s: _run_shard(mon, work, s, nshards, budget, flavour, extra, env), range(nshards)))
     finally:
         shutil.rmtree(work, ignore_errors=True)
     records, crashes = [], []
     for r, c in res:
         records += r
         crashes += c
-    return dict(records=records, crashes=crashes, wall=time.time() - t0, config=config, flavour=flavour)
+    return dict(records=records, crashes=crashes, wall=time.time() - t0, config=config, flavour=flavour, env=env or {})
 
 
 def merge(results):
